@@ -83,7 +83,18 @@ func c19ParseAll(s string) (accepted int) {
 	return accepted
 }
 
+var c19Tricky = []string{
+	"a?b://c", "hashicorp/consul/aws?ref=git://example.com/x", "a#b://c", "ns/name/sys?x=https://h/y//z", "x?://", "?://", "#://", "a/b/c?d://e//f", "github.com/o/r?u=http://x//y",
+	"ns/name/sys@1.99999999999999999999.0", "example.com/ns/name/sys@99999999999999999999.0.0//sub", "ns/name/sys@1.0.0-" + "9999999999999999999999", "ns/name/sys@", "ns/name/sys@//x", "@1.0.0", "a@b@c", "ns/name/sys@1.0.0@2.0.0",
+	"git::", "::", "git::::https://x", "git::https://", "https://", "https:///", "https://[", "https://[::1", "https://%zz", "https://example.com/%zz.tgz", "https://example.com/x.tgz?%zz", "https://example.com/x.tgz#%zz",
+	"./", "../", ".", "..", "./..", "./.", ".//", "..//..", "./a//b", "./\x00", "//", "///", "////a", "github.com/", "github.com//", "github.com/a", "github.com/a/", "github.com/a//b", "gitlab.com/a/b/c/d//e",
+	"xn--/a/b/c", "a.b/c/d/e", "1.2.3.4/a/b/c", "[::1]/a/b/c", "a..b/c/d/e", ".a.b/c/d/e", "a.b:99999999999/c/d/e", "a.b:/c/d/e", "a.b:-1/c/d/e", "‮.example.com/a/b/c", "example.com:65536/a/b/c",
+}
+
 func c19String(env *fw.Env, idx int) string {
+	if idx < len(c19Tricky) {
+		return c19Tricky[idx]
+	}
 	rnd := env.Rand(idx)
 	switch rnd.Intn(6) {
 	case 0:
